@@ -33,7 +33,10 @@ def shadowGo : List IP → List Ty → Bool
   | fm :: rest, returned =>
     match shadowEach fm (fm.c.ret.filter fun t => !fm.c.recv.contains t) returned with
     | none => false
-    | some returned => shadowGo rest returned
+    | some returned =>
+      -- what it received and passes on is returned from here on, too (the value may have been returned below
+      -- under another type, matched through Loose)
+      shadowGo rest (returned ++ (fm.c.ret.filter fun t => fm.c.recv.contains t && !returned.contains t))
 
 /-- `checkForShadowing`, over all funcs (included or not), from the last to the first -/
 def checkShadowing (ch : Chain) : Bool := shadowGo ch.reverse []
